@@ -18,7 +18,7 @@ kit.install_reactor()
 import cassandra.concurrent as ccon           # noqa: E402
 
 META = dict(
-    level='bounded_model_checking',
+    level='model_checking',
     level_text='every combination of statement count, concurrency, per-statement behaviour, fail-fast flag and completion order within the bounds is explored (solver-forked scenario variables) through the real executors; results, ordering, the in-flight bound, the raised failure and the completion count of the asynchronous future are compared per path with the specification',
     level_note='completions are delivered whenever the calling thread blocks on the executor condition (and after execute() returned for the asynchronous variant): pre-emption at the condition wait only, not inside lock-free regions; at most 3 statements',
     technique='symbolic execution (sx, solver-forked scenario and scheduler variables) of the real cassandra.concurrent executors over a scripted session; threading.Condition replaced by a virtual condition whose wait() hands control to the scheduler',
